@@ -270,7 +270,7 @@ def gen_body(sim, chunk, avoid):
 
 def run(sim):
     chunk = sim.draw_choice(CHUNKS, "chunk")
-    avoid = sim.draw_bool(0.5, "avoid_boundary_dots")
+    avoid = sim.draw_bool(0.1, "avoid_boundary_dots")
     esmtp = sim.draw_bool(0.5, "esmtp")
     hdr = sim.draw_choice([None, b"Received: by sim"], "rcvd")
     nmsgs = sim.draw_weighted([(1, 3), (2, 1)], "nmsgs")
